@@ -101,8 +101,8 @@ Proof.
   intros H. unfold ssize, nums_of. rewrite size_list_to_set by exact H. rewrite map_length. reflexivity.
 Qed.
 
-Record AddRes (tbl : gmap N sector) (ps ps' : list partition) (X : gset N) (dpw : pp) (dfee : Z)
-  : Prop := {
+Record AddRes (tbl : gmap N sector) (proven : bool) (ps ps' : list partition) (X : gset N)
+    (dpw : pp) (dfee : Z) : Prop := {
   ar_live : lsum (fun p => ssize (live_sectors p)) ps' = lsum (fun p => ssize (live_sectors p)) ps + ssize X;
   ar_total : lsum (fun p => ssize (sectors p)) ps' = lsum (fun p => ssize (sectors p)) ps + ssize X;
   ar_faulty : psum p_faulty_power ps' = psum p_faulty_power ps;
@@ -112,7 +112,26 @@ Record AddRes (tbl : gmap N sector) (ps ps' : list partition) (X : gset N) (dpw 
                        (exists p, ps !! j = Some p /\ early_terminated p <> ∅);
   ar_secs : allsecs ps' ≡ allsecs ps ∪ X;
   ar_pw : dpw = spow tbl X; ar_fee_eq : dfee = sfee tbl X;
-  ar_len : (length ps <= length ps')%nat }.
+  ar_len : (length ps <= length ps')%nat;
+  ar_cred : psum (credited tbl) ps' = pp_add (psum (credited tbl) ps) (if proven then dpw else pp0) }.
+
+Lemma p_add_sectors_credited qs tbl p proven new p' pw fee :
+  PartInv qs tbl p -> NoDup (map s_num new) -> Forall (fun s => sector_ok s (s_num s)) new ->
+  from_tbl tbl new -> p_add_sectors qs p proven new = Ok (p', pw, fee) ->
+  credited tbl p' = pp_add (credited tbl p) (if proven then pw else pp0).
+Proof.
+  intros HP Hnd Hok Hft E.
+  pose proof (delta_is_difference {| st_q := qs; st_tbl := tbl; st_part := p |} (AddSectors proven new)
+                HP (conj Hnd Hok)) as Hd.
+  unfold next, step, step_delta, st_credited in Hd. cbn [st_q st_tbl st_part fst snd] in Hd.
+  rewrite E in Hd. cbn [fst snd st_tbl st_part with_part] in Hd.
+  rewrite (store_sectors_id tbl new Hnd Hft) in Hd. exact Hd.
+Qed.
+
+Lemma credited_empty tbl : credited tbl part_empty = pp0.
+Proof.
+  unfold credited, active_sectors, live_sectors; cbn. rewrite <- (spow_empty tbl). apply spow_eq. set_solver.
+Qed.
 
 Lemma add_loop_inv qs tbl psize proven fuel :
   0 < q_unit qs -> tbl_keyed tbl -> 0 < psize ->
@@ -121,7 +140,7 @@ Lemma add_loop_inv qs tbl psize proven fuel :
   NoDup (map s_num secs) -> from_tbl tbl secs -> Forall (fun s => sector_ok s (s_num s)) secs ->
   nums_of secs ## allsecs ps -> secs <> [] ->
   add_loop fuel qs psize proven ps idx secs pw fee upd = Ok (ps', pw', fee', upd') ->
-  PSInv qs tbl ps' /\ AddRes tbl ps ps' (nums_of secs) (pp_sub pw' pw) (fee' - fee).
+  PSInv qs tbl ps' /\ AddRes tbl proven ps ps' (nums_of secs) (pp_sub pw' pw) (fee' - fee).
 Proof.
   intros Hu Hk Hps. induction fuel as [|f IH]; intros ps idx secs pw fee upd ps' pw' fee' upd'
     HPS Hidx Hnd Hft Hok Hfresh Hne; cbn [add_loop]; [discriminate|].
@@ -185,7 +204,8 @@ Proof.
         + intros [= <-] Hr. rewrite S'. symmetry. eapply Hoth; eauto.
         + intros Hq [= <-]. rewrite S'. eapply Hoth; eauto.
         + apply (proj2 HPS), Hjk. }
-    assert (HAR1 : AddRes tbl ps ps1 X ppw pfee).
+    pose proof (p_add_sectors_credited qs tbl p proven new p' ppw pfee HPp Hndn Hokn Hftn Eadd) as Hcred.
+    assert (HAR1 : AddRes tbl proven ps ps1 X ppw pfee).
     { subst ps1. constructor.
       - rewrite (lsum_put_part _ ps idx p' Hidx) by (unfold live_sectors, ssize; cbn;
           replace (∅ ∖ ∅) with (∅ : gset N) by (apply seteq_L; set_solver); rewrite size_empty; reflexivity).
@@ -224,7 +244,9 @@ Proof.
             split; [reflexivity|]. rewrite S'. clear -Hn. set_solver.
       - exact Eppw.
       - exact Epfee.
-      - unfold put_part. destruct (_ <? _)%nat; [rewrite insert_length|rewrite app_length; cbn]; lia. }
+      - unfold put_part. destruct (_ <? _)%nat; [rewrite insert_length|rewrite app_length; cbn]; lia.
+      - rewrite (psum_put_part _ ps idx p' Hidx) by apply credited_empty. fold p. rewrite Hcred.
+        apply pp_eq; cbn; lia. }
     destruct rest as [|r0 rest0] eqn:Erest.
     + (* all sectors placed *)
       intros [= <- <- <- _]. split; [exact HPS1|].
@@ -235,11 +257,12 @@ Proof.
       * rewrite ar_fee0. lia.
       * rewrite ar_pw0. apply pp_eq; cbn; lia.
       * lia.
+      * rewrite ar_cred0. destruct proven; apply pp_eq; cbn; lia.
     + rewrite <- Erest in *. intros Hrec.
       assert (Hidx1 : (N.to_nat (idx + 1) <= length ps1)%nat).
       { pose proof (put_part_length ps idx p' Hidx). fold ps1 in H. lia. }
       assert (Hfresh1 : nums_of rest ## allsecs ps1).
-      { rewrite (ar_secs _ _ _ _ _ _ HAR1). rewrite Enums in Hfresh. clear -Hfresh Hnr. clearbody X.
+      { rewrite (ar_secs _ _ _ _ _ _ _ HAR1). rewrite Enums in Hfresh. clear -Hfresh Hnr. clearbody X.
         revert Hfresh Hnr. generalize (nums_of rest), (allsecs ps). intros A B H1 H2. set_solver. }
       assert (Hner : rest <> []) by (rewrite Erest; discriminate).
       destruct (IH ps1 (idx + 1)%N rest _ _ _ ps' pw' fee' upd' HPS1 Hidx1 Hndr Hftr Hokr Hfresh1 Hner Hrec)
@@ -259,6 +282,7 @@ Proof.
       * rewrite Enums. unfold sfee. rewrite (ssum_union_disj _ _ _ DXr).
         unfold sfee in ar_fee_eq0, ar_fee_eq1. lia.
       * lia.
+      * rewrite ar_cred1, ar_cred0. destruct proven; apply pp_eq; cbn; lia.
 Qed.
 
 (* ---------- add_sectors ---------- *)
@@ -277,7 +301,8 @@ Lemma d_add_sectors_off qs tbl d psize proven new_fees secs d' pw fee oL oFP oLP
   d_add_sectors qs d psize proven new_fees secs = Ok (d', pw, fee) ->
   DInvOff qs tbl d' oL oFP oLP (if new_fees then oFEE else oFEE - sfee tbl (nums_of secs)) /\
   EarlyOk d' /\ pw = spow tbl (nums_of secs) /\
-  allsecs (parts d') ≡ allsecs (parts d) ∪ nums_of secs.
+  allsecs (parts d') ≡ allsecs (parts d) ∪ nums_of secs /\
+  psum (credited tbl) (parts d') = pp_add (psum (credited tbl) (parts d)) (if proven then pw else pp0).
 Proof.
   intros Hu Hk Hps HO HE Hnd Hft Hok Hfresh. unfold d_add_sectors.
   destruct secs as [|s0 secs0] eqn:Es.
@@ -285,7 +310,7 @@ Proof.
     - destruct new_fees; [exact HO|].
       replace (oFEE - sfee tbl ∅) with oFEE by (unfold sfee; rewrite ssum_empty; lia). exact HO.
     - symmetry. apply spow_empty.
-    - clear. set_solver. }
+    - split; [clear; set_solver|]. destruct proven; apply pp_eq; cbn; lia. }
   rewrite <- Es in *. assert (Hne : secs <> []) by (rewrite Es; discriminate). clear Es s0 secs0.
   destruct (add_loop _ _ _ _ _ _ _ _ _ _) as [[[[ps pw0] fee_all] updates]|] eqn:El; cbn [rbind]; [|discriminate].
   destruct (foldM _ updates (dl_exp d)) as [q|]; cbn [rbind]; [|discriminate].
@@ -295,12 +320,13 @@ Proof.
   assert (Hidx : (N.to_nat (N.of_nat (Nat.pred (length (parts d)))) <= length (parts d))%nat)
     by (rewrite Nat2N.id; lia).
   destruct (add_loop_inv qs tbl psize proven _ Hu Hk Hps _ _ _ _ _ _ _ _ _ _ HPS Hidx Hnd Hft Hok Hfresh Hne El)
-    as ([P1 P2] & [A1 A2 A3 A4 A5 A6 A7 A8 A9 A10]).
+    as ([P1 P2] & [A1 A2 A3 A4 A5 A6 A7 A8 A9 A10 A11]).
   assert (Epw : pw0 = spow tbl (nums_of secs)).
   { rewrite <- A8. apply pp_eq; cbn; lia. }
   assert (Efee : fee_all = sfee tbl (nums_of secs)) by lia.
   rewrite (ssize_nums_of secs Hnd) in A1, A2.
-  split; [|split; [|split; [exact Epw|exact A7]]].
+  split; [|split; [|split; [exact Epw|split; [exact A7|]]]].
+  3:{ cbn [parts]. rewrite A11. destruct proven; apply pp_eq; cbn; lia. }
   - constructor; cbn [parts dl_live_sectors dl_total_sectors dl_faulty_power dl_live_power dl_daily_fee];
       try assumption.
     + rewrite A1, D3. lia.
